@@ -78,8 +78,17 @@ impl C18 {
         cx.eval();
         let f = fmt_name(fmt);
         let path = cx.tmp(&format!("c18.{}", f));
+        let stale = cx.n % 2 == 0;
+        if via_file && stale {
+            cx.count("saved_over_existing_longer_file");
+        }
         let r = guard(|| -> Result<GdsLibrary, String> {
             if via_file {
+                // history dimension: every other case saves over an existing, longer file (an older copy), as a user re-saving does
+                if stale {
+                    let older = fmt.to_string(lib).map_err(|e| format!("to_string: {}", e))?;
+                    std::fs::write(&path, format!("{}\n{}", older, older)).map_err(|e| format!("prewrite: {}", e))?;
+                }
                 fmt.save(lib, &path).map_err(|e| format!("save: {}", e))?;
                 fmt.open(&path).map_err(|e| format!("open: {}", e))
             } else {
@@ -109,8 +118,17 @@ impl C18 {
         cx.eval();
         let f = fmt_name(fmt);
         let path = cx.tmp(&format!("c18lef.{}", f));
+        let stale = cx.n % 2 == 0;
+        if via_file && stale {
+            cx.count("saved_over_existing_longer_file");
+        }
         let r = guard(|| -> Result<LefLibrary, String> {
             if via_file {
+                // history dimension: every other case saves over an existing, longer file (an older copy), as a user re-saving does
+                if stale {
+                    let older = fmt.to_string(lib).map_err(|e| format!("to_string: {}", e))?;
+                    std::fs::write(&path, format!("{}\n{}", older, older)).map_err(|e| format!("prewrite: {}", e))?;
+                }
                 fmt.save(lib, &path).map_err(|e| format!("save: {}", e))?;
                 fmt.open(&path).map_err(|e| format!("open: {}", e))
             } else {
